@@ -147,4 +147,6 @@ def run(ctx):
     profile.check(ctx, rep, 'R05.P', ['creg_finish', 'clog_finish', 'slog_start', 'sreg_start'])
     from rules import lclone
     lclone.check(ctx, rep, 'R05.C')
+    from rules import lparams
+    lparams.check(ctx, rep, 'R05.N')
     return rep
